@@ -121,6 +121,8 @@ def waves_table() -> str:
         wave = wave_of(int(n))
         cb = [c["property"] for c in m.get("caught_by", [])]
         arr = m.get("caught_by_at_arrival")
+        if arr is not None:
+            arr = [c["property"] if isinstance(c, dict) else c for c in arr]
         row = per.setdefault(prop, {w: [0, 0, 0, 0, 0] for w in waves})
         row[wave][0] += 1
         row[wave][1] += 1 if prop in cb else 0
